@@ -102,17 +102,22 @@ class RuntimeCheck:
         return f
 
     def run(self, tier, seed, replay=None):
-        from . import gen_runtime
         rep = engine.Report(self.prop, tier, seed)
         rep.assumptions = ["every atomic/lock operation is a sequentially consistent atomic step",
                            "the universe of mocked traits in /verif/harness/src/universe.rs is representative of #[unimock] output for &self methods with one u8 argument (macro output itself is the subject of C05/C15/C16)"] + self.extra_assumptions()
         engine.lean_obligations(self.prop, self.theorems, rep, thorough=(tier == 'thorough'))
+        self.explore(rep, tier, seed, replay)
+        return rep.finish()
+
+    def explore(self, rep, tier, seed, replay=None, merge=False):
+        """run the runtime correspondence and add violations / coverage to `rep`"""
+        from . import gen_runtime
         ok, log = engine.build_harness(['replay'])
         if not ok:
             path = engine.write_replay(self.prop, 'build', log + '\n', ["the correspondence harness no longer builds against /repo (hooks or API changed)"])
             rep.violation(path, "correspondence harness does not build against /repo", no_input=True)
             rep.coverage.update({'evaluations': 0, 'distinct_nontrivial': 0, 'rule': self.rule(), 'samples': []})
-            return rep.finish()
+            return
         total = 0
         nontriv = set()
         samples = []
@@ -177,7 +182,7 @@ class RuntimeCheck:
                 f"real : {detail[0]}", f"model: {detail[1]}",
                 f"correspondence: runtime trace equality (vlib/rtcheck.py tie_proj) against Unimock.Driver over lean/Unimock/Model/*.lean"])
             rep.violation(path, f"model/code correspondence broken on {n} ({len(tie)} scenarios), property projection intact", no_input=True)
-        rep.coverage.update({
+        cov = {
             'evaluations': total,
             'distinct_nontrivial': len(nontriv),
             'rule': self.rule(),
@@ -188,8 +193,14 @@ class RuntimeCheck:
             'event_histogram': dict(hist.most_common()),
             'spec_mismatches': len(spec), 'tie_only_mismatches': len(tie),
             'explanation': "theorems checked by the Lean kernel (obligations/discharged); the model they are about is run side by side with the real crate on every scenario and compared event by event, state snapshot by state snapshot",
-        })
-        return rep.finish()
+        }
+        if merge:
+            rep.coverage['runtime'] = {k: cov[k] for k in ('evaluations', 'distinct_nontrivial', 'event_histogram', 'spec_mismatches', 'tie_only_mismatches')}
+            rep.coverage['evaluations'] = rep.coverage.get('evaluations', 0) + total
+            rep.coverage['distinct_nontrivial'] = rep.coverage.get('distinct_nontrivial', 0) + len(nontriv)
+            rep.coverage['traces_validated_against_impl'] = total
+        else:
+            rep.coverage.update(cov)
 
 def event_class(l):
     toks = l.split(' ')
